@@ -3,6 +3,7 @@ CONSTANTS NP = 4
  NF = 2
  NA = 3
  NC = 3
+ NS = 5
  Light = FALSE
 INIT Init
 NEXT Eval
